@@ -1378,7 +1378,17 @@ impl World {
                 };
                 let disk = &self.nodes[i].disk;
                 let covered = disk.snap_index >= idx || (disk.last() >= idx && (vis_term.is_none() || disk.term_of(idx) == vis_term));
-                if !covered {
+                let cur_term = self.nodes[i].live.as_ref().unwrap().rn.raft.term;
+                if !covered && m.term < cur_term {
+                    ctx.v(
+                        "C06",
+                        "superseded append acknowledgement (older term) released after its entry was overwritten",
+                        format!(
+                            "node {} (now term {}) released to {} an acknowledgement of index {} generated in term {} for an entry of term {:?} that was replaced before it was ever persisted",
+                            id, cur_term, m.to, idx, m.term, vis_term
+                        ),
+                    );
+                } else if !covered {
                     ctx.v(
                         "C06",
                         "append acknowledgement released before the entries were durable",
